@@ -7,6 +7,7 @@ byte strings and property blocks are interned to small integers, operations are 
   a:<type>:<pid>:<rcs>:<props>:<wf>   acknowledgement read
   ok:<op>:<rcs>:<props>   exchange completed without error        x:<op>  any other completion
   Q  the client was cancelled / disconnected and the execution context has run out of work
+  X  cancel() (also a terminal signal of an exchange, a finished async_disconnect)      R  async_run() again
 """
 import mqtt_ref as ref
 import client_mon as M
@@ -42,6 +43,7 @@ def abstract(s):
     bound = {}               # (type, pid) -> op name while the exchange is outstanding
     done_names = set()
     rbuf = {}                # per connection reassembly
+    runs = 0
     conn = 0; connected = False
     skipped = None
     for line, evs, st, t in s.tr:
@@ -59,7 +61,14 @@ def abstract(s):
                 key = (cmd, repr(o.topics), repr(sorted(M.canon_props(o.props).items(), key=repr)))
                 live_sub.append((key, ws[1]))
         elif cmd in ("run", "recv", "disc"):
+            if cmd == "run" and runs: toks.append("R")          # async_run() again after a cancel
+            if cmd == "run": runs += 1
             toks.append(f"i:{num(ws[1])}:other:1")
+        elif cmd == "cancel":
+            toks.append("X")
+        elif cmd == "sig" and len(ws) > 2 and ws[2] == "terminal":
+            o = s.ops.get(ws[1])
+            if o is not None and o.kind in ("pub", "sub", "unsub"): toks.append("X")     # a terminal signal of an exchange cancels the whole client
         elif cmd == "reconnect":
             caps = M.plist_parse(ws[3]); rm = caps.get(0x21, [None])[0]
             conn += 1; connected = True; rbuf[conn] = b""
@@ -118,6 +127,7 @@ def abstract(s):
                     toks.append(f"ok:{num(name)}:{rcs}:{props_id(intern, M.plist_parse(df.get('props', '-')))}")
                 else:
                     toks.append(f"x:{num(name)}")
+                    if es[0] == "done" and o is not None and o.kind == "disc": toks.append("X")      # a finished async_disconnect has cancelled the client
     # cancel() was called / async_disconnect finished and the harness drained the execution context: nothing may be left outstanding
     if getattr(s, "ended", False) and not s.crashed: toks.append("Q")
     return toks, skipped
